@@ -523,6 +523,10 @@ func vfExecCons(c *vfConsCase) *vfConsRun {
 	lastRounds := atomic.LoadInt64(&sim.fetchRounds)
 	lastChange := time.Now()
 	lastOcc := make([]int64, n)
+	idleOcc, idleRounds, idleSince := make([]int64, n), make([]int64, n), make([]time.Time, n)
+	for pi := range idleSince {
+		idleOcc[pi], idleSince[pi] = -1, time.Now()
+	}
 	exhausted := false
 	for !reached() && !run.stop.stopped() && run.stuck == "" && !exhausted {
 		for pi := range c.Parts {
@@ -552,6 +556,16 @@ func vfExecCons(c *vfConsCase) *vfConsRun {
 					lastOcc[pi] = occ
 				} else if occ-lastOcc[pi] > 60 {
 					exhausted = true
+				}
+			}
+			if !doneP {
+				// the partition is not fetched at all any more although the others are (e.g. its broker worker is gone)
+				occ := int64(sim.occOf(fmt.Sprintf("fetch/t/%d", pi)))
+				gr := atomic.LoadInt64(&sim.fetchRounds)
+				if occ != idleOcc[pi] {
+					idleOcc[pi], idleRounds[pi], idleSince[pi] = occ, gr, time.Now()
+				} else if gr-idleRounds[pi] > 800 && time.Since(idleSince[pi]) > 1500*time.Millisecond {
+					run.stuck = fmt.Sprintf("partition %d is no longer fetched: %d fetch rounds of other partitions went by without a single fetch for it (delivered %d of %d)", pi, gr-idleRounds[pi], cur.delivered, want[pi])
 				}
 			}
 			if !doneP && cur.rounds-lastP[pi].rounds > 200 {
